@@ -99,6 +99,10 @@ theorem idxLoop (f : Nat × Bytes → Nat → Option (Nat × Bytes)) (w : Nat) (
       rw [idxLoop f w dbl hf lens]
       cases List.mapM (fun e => toBytesBE? w (dbl e)) (cumulativeFrom (s.1 + l) lens) <;> simp [List.append_assoc]
 
+/-- `n * (2 if c else 1)` is `n * 2 if c else n` (a respelling of `max_offset`) -/
+theorem mul_ite_two (n : Nat) (c : Prop) [Decidable c] : n * (if c then 2 else 1) = if c then n * 2 else n := by
+  split <;> simp
+
 theorem repeat_zero (n : Nat) : Py.repeatBytes [0] n = List.replicate n 0 := by
   induction n with
   | zero => rfl
@@ -139,7 +143,8 @@ theorem to_boc_given (fuel : Nat) (p : PCell) (hi hc hcb : Bool) (fl : Nat) (cel
     intros; trivial
   | some recs =>
     have hlen := mapM_length _ _ _ hrecs
-    simp only [Option.bind_some, emit, hlen, byteWidth, ← SrcArith.py_bitLength_eq, b2n, Option.bind_eq_bind, Option.pure_def]
+    simp only [Option.bind_some, emit, hlen, byteWidth, ← SrcArith.py_bitLength_eq, b2n, Option.bind_eq_bind, Option.pure_def,
+      mul_ite_two]
     congr 1; funext flags
     cases hs : List.mapM (Rec.ser ((Py.bitLength cells.length + 7) / 8)) recs with
     | none => rfl
